@@ -77,7 +77,7 @@ Definition owner_eqb (a b : owner) : bool :=
 
 Record ref := mk_ref { r_own : owner; r_off : N; r_len : N; r_id : N }.
 
-Record st := mk_st { s_tbl : table; s_mem : mem; s_refs : list ref; s_err : N }.   (* s_err: failed frees (ValueError) *)
+Record st := mk_st { x_tbl : table; x_mem : mem; x_refs : list ref; x_err : N }.   (* x_err: failed frees (ValueError) *)
 
 Definition init : st := mk_st [] (fun _ => 0) [] 0.
 
@@ -122,19 +122,19 @@ Definition retag (o o' : owner) (r : ref) : ref :=
 Definition mstep (c : conf) (s : st) (op : mop) : st * list event :=
   match op with
   | MSend dst b deliver =>
-      let '(t', m', it) := maybe_write c (s_tbl s) (s_mem s) b in
+      let '(t', m', it) := maybe_write c (x_tbl s) (x_mem s) b in
       match it with
-      | Inline id => (mk_st t' m' (s_refs s) (s_err s), if deliver then [EvDeliver dst id] else [])
+      | Inline id => (mk_st t' m' (x_refs s) (x_err s), if deliver then [EvDeliver dst id] else [])
       | Ptr off len =>
           let got := m' off in                         (* resolve_shm_batch reads the region *)
-          (mk_st t' m' (mk_ref dst off len got :: s_refs s) (s_err s),
+          (mk_st t' m' (mk_ref dst off len got :: x_refs s) (x_err s),
            if deliver then [EvDeliver dst got] else [])
       end
   | MFree o =>
-      let '(t', rs', e) := free_owned o (s_tbl s) (s_refs s) in (mk_st t' (s_mem s) rs' (s_err s + e), [])
+      let '(t', rs', e) := free_owned o (x_tbl s) (x_refs s) in (mk_st t' (x_mem s) rs' (x_err s + e), [])
   | MFreeHeld i =>
-      let '(t', rs', e) := free_held i (s_tbl s) (s_refs s) in (mk_st t' (s_mem s) rs' (s_err s + e), [])
-  | MRetag o o' => (mk_st (s_tbl s) (s_mem s) (map (retag o o') (s_refs s)) (s_err s), [])
+      let '(t', rs', e) := free_held i (x_tbl s) (x_refs s) in (mk_st t' (x_mem s) rs' (x_err s + e), [])
+  | MRetag o o' => (mk_st (x_tbl s) (x_mem s) (map (retag o o') (x_refs s)) (x_err s), [])
   end.
 
 Fixpoint mrun (c : conf) (s : st) (ops : list mop) : st * list event :=
@@ -253,7 +253,7 @@ Fixpoint run_calls (c : conf) (f : flags) (s : st) (h : list call) : list (list 
   match h with
   | [] => []
   | x :: r => let '(s1, ev) := mrun c s (compile f x) in
-              (map ev_code ev, s_tbl s1, s_err s1) :: run_calls c f s1 r
+              (map ev_code ev, x_tbl s1, x_err s1) :: run_calls c f s1 r
   end.
 
 (* (flags, segment size, threshold, history) -> per call (deliveries, allocation table after the call, failed frees) *)
